@@ -872,6 +872,8 @@ impl JobServerHandle {
                         n
                     );
                     if n > 0 {
+                        #[cfg(feature = "verif-hooks")]
+                        crate::verif::note("cheat", &format!("n={}", n));
                         let mut state = self.state.borrow_mut();
                         state.my_tokens += n;
                         state.cheats += n;
